@@ -1,10 +1,10 @@
 #!/bin/bash
-# verify_seed2.sh <id>: like verify_seed.sh for round-2 seeds in /tmp/seed2_<id>
+# verify_seed2.sh <id>: like verify_seed.sh for round-2 seeds in /tmp/seed${R:-2}_<id>
 set -u
 id=$1
 export GOFLAGS=-mod=mod GOPROXY=off
-S=/tmp/seed2_$id
-W=/tmp/vs2_$id
+S=/tmp/seed${R:-2}_$id
+W=/tmp/vs${R:-2}_$id
 rm -rf $W; git -C /repo worktree prune; git -C /repo worktree add -q --detach $W HEAD || exit 1
 cd $W && git apply $S/patch.diff || { echo "PATCH DOES NOT APPLY"; git -C /repo worktree remove --force $W; exit 1; }
 go build ./... || { echo "BUILD FAILS"; exit 1; }
